@@ -82,7 +82,7 @@ Proof.
   intros Hc Hl. rewrite expand_env_map. cbn [map].
   assert (E : map (expand_env_tok W) l = l').
   { induction Hl as [|t t' l l' Ht _ IH]; [reflexivity|]. cbn [map]. rewrite IH, (expand_env_tok_ok1 _ _ _ Ht). reflexivity. }
-  rewrite E. unfold expand_env_tok. cbn [fst snd]. rewrite (env_in_token_no_dollar cmd Hc). reflexivity.
+  rewrite E. unfold expand_env_tok. cbn [fst snd]. rewrite (tagged_gate_no_dollar cmd _ Hc). reflexivity.
 Qed.
 
 (* ------------------------------------------------------------------ what is left behind *)
